@@ -100,7 +100,7 @@ theorem addImports_pres (st : Python.St) (tp : Str) : Pres st (addImports st tp)
 
 theorem addCustom_pres (st : Python.St) (t : Str) : Pres st (addCustom st t) := fun h => ⟨h.imports, h.typeVars⟩
 
-/-- the `datetime` import added before the header is written (`fix:` commit 062e77e) -/
+/-- the `datetime` import added before the header is written (`fix:` commit bfc37c3) -/
 theorem addDatetimeImport_pres (st : Python.St) : Pres st (addDatetimeImport st) := by
   unfold addDatetimeImport
   split
